@@ -696,7 +696,19 @@ class SmallSet {
   }
 
   void grow() {
-    _set.insert(std::make_move_iterator(_vec.begin()), std::make_move_iterator(_vec.end()));
+    // Move the elements one by one: if an insertion throws (memory allocation), the elements already moved are given
+    // back to the small container, which then still holds all the elements of this set
+    miterator it = _vec.begin();
+    try {
+      for (; it != _vec.end(); ++it) {
+        _set.insert(std::move(*it));
+      }
+    } catch (...) {
+      for (miterator back = _vec.begin(); back != it; ++back) {
+        *back = std::move(_set.extract(*_set.begin()).value());
+      }
+      throw;
+    }
     _vec.clear();
   }
 
